@@ -72,6 +72,6 @@ def C12_inverse_full : Prop :=
     0 < (Dec.mk n scale).value * g.value → (Dec.mk n scale).value * g.value < 2 →
     ∃ r, implInverse est n scale p m g = some r ∧
       |r.value - 1 / (Dec.mk n scale).value| < (10:ℚ) ^ (-(r.scale - ((r.digits : Int) - p)))
-where EstOKc (est : Nat → Nat) : Prop := ∀ b, 10 ^ est b ≤ 2 ^ b
+where EstOKc (est : Nat → Nat) : Prop := ∀ b, 10 ^ (est (b + 1) - 1) ≤ 2 ^ b
 
 end BigDec
